@@ -392,7 +392,7 @@ def run(ctx):
             "opts": {"time_horizon": 40.0, "drain": 3.0, "max_points": 8000,
                      "free_switch_cost": 1,
                      "time_jump_cost": None if ctx.quick else 1},
-            "budget": 3000 if ctx.quick else 30000,
+            "budget": 3000 if ctx.quick else 20000,
         })
     if ctx.quick:
         # the registry of service units is shared between the creating thread and the polling
